@@ -59,7 +59,8 @@ class Obligation:
 
     def add(self, assumptions, goal, note=""):
         case = getattr(self.engine, "current_case", None) if self.engine is not None else None
-        self.queries.append((tuple(assumptions), goal, note, case))
+        ax = tuple(self.engine.global_axioms) if self.engine is not None else ()
+        self.queries.append((tuple(assumptions) + ax, goal, note, case))
 
 
 class Frame:
@@ -108,8 +109,6 @@ class Engine:
         s = self._solver
         s.push()
         try:
-            for a in self.global_axioms:
-                s.add(a)
             for c in st.pc:
                 s.add(c)
             if extra is not None:
@@ -289,8 +288,22 @@ class Engine:
             tc = self.type_constraint(v)
             if tc is not None:
                 c = z3.And(c, tc)
+            if self.spec_mode:
+                # inside specifications the fact "this reference is valid and well-typed" is not a branch
+                # condition: it is recorded as a global fact about the (closed) term, so that the forks of a
+                # union read still partition the state space when they are merged
+                self.add_axiom(c)
+                return st
             return st.assume(c)
         return st
+
+    def add_axiom(self, c):
+        ids = self.__dict__.setdefault("_axiom_ids", set())
+        i = c.get_id()
+        if i not in ids:
+            ids.add(i)
+            self.global_axioms.append(c)
+            self._solver.add(c)  # permanently (outside push/pop): true of every state
 
     # dynamic class of an object: cls_of(ref) ranges over the declared subclasses of the static class
     def class_id(self, name):
@@ -642,6 +655,14 @@ class Engine:
         ab = self._abstraction(node)
         if ab is not None:
             return ab(st)
+        if self.spec_mode:
+            # an operation that is ill-kinded on one alternative of a union is legal in a specification as long as
+            # that alternative is excluded by a guard: it becomes a raise outcome, whose feasibility is checked
+            # when the forks are merged
+            try:
+                return m(node, st)
+            except Unsupported as e:
+                return [self.raise_(st, "TypeError", "ill-kinded in a specification: %s" % e)]
         return m(node, st)
 
     def _abstraction(self, node):
@@ -678,6 +699,12 @@ class Engine:
         for o in outs:
             if o.tag != "ok":
                 res.append(o)
+            elif self.spec_mode:
+                try:
+                    res.extend(f(o.st, o.val))
+                except Unsupported as e:
+                    # (see eval) -- here the state is the one of this fork
+                    res.append(self.raise_(o.st, "TypeError", "ill-kinded in a specification: %s" % e))
             else:
                 res.extend(f(o.st, o.val))
         return res
@@ -1762,26 +1789,7 @@ class Engine:
         res = []
         for o in outs:
             if o.tag == "raise":
-                handled = False
-                for h in node.handlers:
-                    names = self._handler_names(h)
-                    if any(self.exc_is(o.val.kind[1], n) for n in names):
-                        s = o.st.copy()
-                        if h.name:
-                            s.env[h.name] = o.val
-                        prev = s.env.get("$handling")
-                        s.env["$handling"] = o.val
-                        for ho in self.exec_block(h.body, s):
-                            s2 = ho.st.copy()
-                            if prev is None:
-                                s2.env.pop("$handling", None)
-                            else:
-                                s2.env["$handling"] = prev
-                            res.append(Out(ho.tag, s2, ho.val))
-                        handled = True
-                        break
-                if not handled:
-                    res.append(o)
+                res.extend(self._dispatch_handlers(node, o, 0))
             elif o.tag == "ok" and node.orelse:
                 res.extend(self.exec_block(node.orelse, o.st))
             else:
@@ -1795,6 +1803,42 @@ class Engine:
                     else:
                         fin.append(fo)
             res = fin
+        return res
+
+    def _dispatch_handlers(self, node, o, start):
+        """an exception value of class C stands for C or any subclass when it came out of a contract
+        (`abstract`): a handler for a strict subclass of C may or may not match"""
+        exc = o.val
+        cls = exc.kind[1]
+        abstract = bool(exc.aux and exc.aux.get("abstract"))
+        for hi in range(start, len(node.handlers)):
+            h = node.handlers[hi]
+            names = self._handler_names(h)
+            if any(self.exc_is(cls, n) for n in names):
+                return self._run_handler(h, o)
+            if abstract:
+                subs = [n for n in names if self.exc_is(n, cls)]
+                if subs:
+                    b = z3.Bool(fresh_name("exc_is_" + subs[0]))
+                    yes = Out("raise", o.st.assume(b), V(Kind("exc", subs[0]), exc.t, aux=dict(exc.aux)))
+                    no = Out("raise", o.st.assume(z3.Not(b)), exc)
+                    return self._run_handler(h, yes) + self._dispatch_handlers(node, no, hi + 1)
+        return [o]
+
+    def _run_handler(self, h, o):
+        res = []
+        s = o.st.copy()
+        if h.name:
+            s.env[h.name] = o.val
+        prev = s.env.get("$handling")
+        s.env["$handling"] = o.val
+        for ho in self.exec_block(h.body, s):
+            s2 = ho.st.copy()
+            if prev is None:
+                s2.env.pop("$handling", None)
+            else:
+                s2.env["$handling"] = prev
+            res.append(Out(ho.tag, s2, ho.val))
         return res
 
     def _handler_names(self, h):
